@@ -114,8 +114,8 @@ def u1(res, tier, wd=None):
     """exhaustive model checking of the positive configurations + the negative ones (must be rejected)"""
     wd = wd or core.workdir(f"implmc-u1-{tier}")
     q = tier == "quick"
-    depth = 4 if q else 6
-    ndepth = 5 if q else 6
+    depth = 4 if q else 5
+    ndepth = 5
     by = {c["name"]: c for c in CONFIGS}
 
     def pos(t):
